@@ -1090,6 +1090,12 @@ class Graph:
         rng = self.rng
         ndirs = rng.choice([2, 3, 4])
         dirs = [f'd{i}' for i in range(ndirs)]
+        if rng.random() < 0.4:
+            # sibling directories whose NAMES are string prefixes of one another (inc, inc2, inc23 …): not nested, so "the directory
+            # the current file was found in" is still well defined, but it cannot be recognised by a bare string-prefix test
+            dirs = ['d' + '0123'[:i] for i in range(ndirs)]
+            if rng.random() < 0.5:
+                dirs.reverse()
         use_sys = rng.random() < 0.6
         names = [f'h{i}.h' for i in range(rng.choice([2, 3, 4]))]
         shapes = ['plain', 'guarded', 'guarded', 'guarded-comment-null', 'guarded-nested', 'closed-early', 'closed-early-cond',
